@@ -4,7 +4,7 @@
    hook-exported key sets of the two decoder tables). *)
 From V.lib Require Import Base.
 From V.c04 Require Import C04Model C04AsmModel C04ContainerProofs.
-From V.c03 Require Import C03Model C03Spec C03Registry C03Proofs C03CanonProofs C03LeafModel C03LeafProofs C03LeafBoxProofs C03LeafInstProofs C03StsdProofs C03VseProofs C03LeafTruncProofs C03LeafEncProofs C03DelegateProofs.
+From V.c03 Require Import C03Model C03Spec C03Registry C03Proofs C03CanonProofs C03LeafModel C03LeafProofs C03LeafBoxProofs C03LeafInstProofs C03StsdProofs C03VseProofs C03LeafTruncProofs C03LeafEncProofs C03DelegateProofs C03DelegateExtProofs C03FactsDefs C03Facts C03ClassProofs.
 Open Scope N_scope.
 
 (* Encode to an io.Writer and EncodeSW to a slice writer: identical bytes or both fail, for every container tree and
@@ -271,6 +271,110 @@ Theorem C03_registry : keys_decoders = keys_decoders_sr.
 Proof. exact registry_equal. Qed.
 Print Assumptions C03_registry.
 
+
+(* ---- second round: every registered pair classified from the sources on every run ----
+   The delegation theorem for the operations the delegating SR decoders actually use (harness/c03/srcfacts.go finds them in the
+   sources on every run): additionally ReadZeroTerminatedString / ReadPossiblyZeroTerminatedString (count below 2^62),
+   ReadFixedLengthString with ANY int count (a run that ends without error read it inside the body), and positions relative to the
+   decoder's entry (`initPos := sr.GetPos()` ... `sr.GetPos() - initPos`: XRelPos, origin 0 on the private reader, the offset of the
+   body on the caller's reader).  Buffers below 2^61 bytes, so that hdr.payloadLen() < 2^61 (the bound the extractor uses for counts). *)
+Theorem C03_delegate_sound_ext : forall A (p : xprog A) body a s', local_xprog p ->
+  run_xprog 0 p (rnew body) = Ok (a, s') -> rerr s' = false ->
+  forall pre post, (zlen (pre ++ body ++ post) < 2305843009213693952)%Z ->
+    run_xprog (zlen pre) p (mkR (pre ++ body ++ post) (zlen pre) false)
+    = Ok (a, mkR (pre ++ body ++ post) (zlen pre + rpos s')%Z false).
+Proof.
+  exact (fun A p body a s' Hl E He pre post Hs =>
+    delegate_sound_x A p body a s' Hl
+      ltac:(rewrite !zlen_app in Hs; pose proof (zlen_nonneg pre); pose proof (zlen_nonneg post); unfold two62; lia)
+      E He pre post ltac:(unfold two62; lia)).
+Qed.
+Print Assumptions C03_delegate_sound_ext.
+
+(* instantiated ONCE for all delegating pairs: reader path = [the header guard;] readBoxBody, the SR decoder's program on a private
+   reader over the body, returning what it returns (strict: it ends with `return b, sr.AccError()`); SR path = [the same guard;] the
+   program on the caller's reader.  Whenever the private run ends without accumulated error, both paths fail on the guard or both
+   return the same value, the SR path stopping at the end of what the private run read, without error. *)
+Theorem C03_delegating_pair_agree : forall A (p : xprog A) (guard strict : bool) body a s', local_xprog p ->
+  run_xprog 0 p (rnew body) = Ok (a, s') -> rerr s' = false ->
+  forall pre post, (zlen (pre ++ body ++ post) < 2305843009213693952)%Z ->
+    (guard = true -> xprog_body_r guard strict p body = Err /\
+                     xprog_sr guard strict p (mkR (pre ++ body ++ post) (zlen pre) false) = Err) /\
+    (guard = false -> xprog_body_r guard strict p body = Ok a /\
+                      xprog_sr guard strict p (mkR (pre ++ body ++ post) (zlen pre) false)
+                      = Ok (a, mkR (pre ++ body ++ post) (zlen pre + rpos s')%Z false)).
+Proof.
+  exact (fun A p guard strict body a s' Hl E He pre post Hs =>
+    xprog_pair_agree A p guard strict body a s' Hl
+      ltac:(rewrite !zlen_app in Hs; pose proof (zlen_nonneg pre); pose proof (zlen_nonneg post); unfold two62; lia)
+      E He pre post ltac:(unfold two62; lia)).
+Qed.
+Print Assumptions C03_delegating_pair_agree.
+
+(* the programs of the first round are extended programs with the same runs *)
+Theorem C03_sprog_embeds : forall A (p : sprog A), (local_prog p -> local_xprog (xprog_of_sprog p)) /\
+  forall o s, run_xprog o (xprog_of_sprog p) s = run_sprog p s.
+Proof. exact (fun A p => conj (xprog_of_sprog_local p) (xprog_of_sprog_run p)). Qed.
+Print Assumptions C03_sprog_embeds.
+
+(* EVERY registered box type (c03_decoder_facts is regenerated from the sources, keys_decoders from the running library, on every
+   run) has a pair that is
+     - delegating (shape checked by the extractor) with a position-relative SR decoder: C03_delegating_pair_agree applies; or
+       delegating and named: DecodeVisualSampleEntry (C03_vse_pair_agree_canonical) / the explored list
+       c03_delegating_nonrelative_explored = emsg esds evte meta sgpd stpp trep wvtt;
+     - a container twin (same text around DecodeContainerChildren / ...SR; KCont of C03_decode_agree_canonical), or one whose SR
+       decoder also returns sr.AccError(): named, c03_twin_accerr_explored = edts sinf stbl;
+     - moov / moof: the reader path reads the body and runs the text of the SR decoder on it, KContBody with the extracted flag;
+     - separately written and named: c03_separate_proved = trun senc mdat stsd mfhd tfdt (their pair theorems above) or
+       c03_separate_explored = audio sample entry, av1C avcC cdat dac3 dec3 dref emeb free/skip hvcC styp vttc vtte.
+   A reader-path decoder that is rewritten by hand leaves its class and breaks this theorem until it gets a pair model. *)
+Theorem C03_all_pairs_classified :
+  forall k, In k keys_decoders ->
+    exists f, In f c03_decoder_facts /\ df_key f = k /\
+      match df_class f with
+      | CDelegating => df_relative f = true
+                       \/ In (df_r f) c03_delegating_nonrelative_proved \/ In (df_r f) c03_delegating_nonrelative_explored
+      | CContainerTwin => df_accerr f = false \/ In (df_r f) c03_twin_accerr_explored
+      | CContainerBody => std_kind k = KContBody (df_accerr f)
+      | CSeparate => In (df_r f) c03_separate_proved \/ In (df_r f) c03_separate_explored
+      end.
+Proof. exact all_pairs_classified. Qed.
+Print Assumptions C03_all_pairs_classified.
+
+Theorem C03_facts_cover_registry : map df_key c03_decoder_facts = keys_decoders /\ map df_key c03_decoder_facts = keys_decoders_sr.
+Proof. exact facts_cover_registry. Qed.
+Print Assumptions C03_facts_cover_registry.
+
+(* the dispatch table of the framing model used in the correspondence agrees with the classes found in the sources *)
+Theorem C03_kinds_match : forallb kind_matches c03_decoder_facts = true.
+Proof. exact kinds_match. Qed.
+Print Assumptions C03_kinds_match.
+
+(* encoders: every type with Encode and EncodeSW either writes EncodeSW's bytes (76 types: C03_enc_delegate_agree), is
+   EncodeContainer / EncodeContainerSW or EncodeHeader / EncodeHeaderSW alone (C03_encode_agree), is the same text twice up to
+   Encode <-> EncodeSW (File, MediaSegment, Fragment, InitSegment: C03_encode_agree; Av1CBox HvcCBox MoofBox: explored), or is
+   separately written and named (MdatBox StsdBox VisualSampleEntryBox: C03_*_enc_agree; the explored list) *)
+Theorem C03_all_encoders_classified :
+  forall f, In f c03_encoder_facts ->
+    match ef_class f with
+    | EDelegating | EContainer | EHeader => True
+    | ETwin => In (ef_type f) c03_enc_twin_proved \/ In (ef_type f) c03_enc_twin_explored
+    | ESeparate => In (ef_type f) c03_enc_separate_proved \/ In (ef_type f) c03_enc_separate_explored
+    end.
+Proof. exact all_encoders_classified. Qed.
+Print Assumptions C03_all_encoders_classified.
+
+Theorem C03_enc_delegate_agree : forall size cap out,
+  (forall bs, out = Some bs -> (N.of_nat (length bs) <= size)%N /\ (N.of_nat (length bs) <= cap)%N) ->
+  enc_delegating_w size out = enc_direct_sw cap out.
+Proof. exact enc_delegate_agree. Qed.
+Print Assumptions C03_enc_delegate_agree.
+
+(* the proviso is needed: a Size() smaller than what EncodeSW writes makes Encode fail where EncodeSW on a larger writer succeeds *)
+Theorem C03_enc_delegate_size_needed : exists size cap out, enc_delegating_w size out <> enc_direct_sw cap out.
+Proof. exact enc_delegate_size_needed. Qed.
+Print Assumptions C03_enc_delegate_size_needed.
+
 (* ---- non-vacuity ---- *)
 Example ex_tree : ebox :=
   ECont [109;111;111;102]%N 24 [ECont [116;114;97;102]%N 8 []; ELeaf (Ok [0;0;0;8;102;114;101;101]%N) (Ok [0;0;0;8;102;114;101;101]%N)].
@@ -393,3 +497,33 @@ Proof. vm_compute. reflexivity. Qed.
 Example ex_tfdt_run : run_sprog tfdt_prog_sr (rnew [1;0;0;0; 0;0;0;1;0;0;0;0]%N)
   = Ok ([1; 0; 4294967296]%N, mkR [1;0;0;0; 0;0;0;1;0;0;0;0]%N 12 false).
 Proof. vm_compute. reflexivity. Qed.
+
+(* a kind-like decoder: version/flags, two zero-terminated strings whose maximal lengths are computed from the payload length and
+   the position relative to the entry (clamped outside [0, 2^62), see local_xprog) is a local extended program ... *)
+Example ex_xprog (plen : Z) : xprog (list N * list N) :=
+  XOp RU32 (fun _ =>
+    XOp (RZStr (if ((0 <=? plen) && (plen <? 2305843009213693952))%bool%Z then plen - 5 else 0)%Z) (fun a =>
+      XRelPos (fun z => if ((0 <=? z) && (z <? 4611686018427387904))%bool%Z then
+        XOp (RZStr (if ((0 <=? plen) && (plen <? 2305843009213693952))%bool%Z then plen - z else 0)%Z) (fun b =>
+          match a, b with VBytes x, VBytes y => XRet (x, y) | _, _ => XFail end)
+        else XFail))).
+Example ex_xprog_local : forall plen, local_xprog (ex_xprog plen).
+Proof.
+  intros plen. split; [reflexivity|]. intros _. split.
+  { cbn [local_xop]. unfold is_int, two63. destruct ((0 <=? plen) && (plen <? 2305843009213693952))%bool%Z eqn:E; lia. }
+  intros a z. destruct ((0 <=? z) && (z <? 4611686018427387904))%bool%Z eqn:Ez; [|exact I]. split.
+  { cbn [local_xop]. unfold is_int, two63. destruct ((0 <=? plen) && (plen <? 2305843009213693952))%bool%Z eqn:E; lia. }
+  intros b. destruct a, b; exact I.
+Qed.
+Example ex_xprog_run : run_xprog 0 (ex_xprog 10) (rnew [0;0;0;0; 97;98;0; 99;100;0]%N)
+  = Ok (([97;98], [99;100])%N, mkR [0;0;0;0; 97;98;0; 99;100;0]%N 10 false).
+Proof. vm_compute. reflexivity. Qed.
+(* ... the same decoder on the caller's reader, the body at offset 2 and a sibling after it *)
+Example ex_xprog_run_framed : run_xprog 2 (ex_xprog 10) (mkR [7;7; 0;0;0;0; 97;98;0; 99;100;0; 5;5;5]%N 2 false)
+  = Ok (([97;98], [99;100])%N, mkR [7;7; 0;0;0;0; 97;98;0; 99;100;0; 5;5;5]%N 12 false).
+Proof. vm_compute. reflexivity. Qed.
+(* the table is not trivially satisfied: at least 60 box types are covered by the delegation theorem, and some are not *)
+Example ex_facts_nontrivial : (60 <=? count_cov CovDelegateSound c03_decoder_facts)%nat = true
+  /\ (15 <=? count_cov CovFraming c03_decoder_facts)%nat = true /\ (1 <=? count_cov CovExplored c03_decoder_facts)%nat = true
+  /\ existsb (fun f => negb (dec_ok (mkdec (df_key f) (df_s f) (df_s f) CSeparate false (df_relative f)))) c03_decoder_facts = true.
+Proof. vm_compute. repeat split; reflexivity. Qed.
